@@ -154,26 +154,32 @@ def hasPrefix0x (s : Bytes) : Bool :=
   | 48 :: 88 :: _ => true
   | _ => false
 
-/-- `atoi` of expand/arith.go. -/
-def atoi (s0 : Bytes) : Int :=
-  let s := trimSpace s0
-  let (neg, s) : Bool × Bytes :=
-    match s with
-    | 43 :: r => (false, r)
-    | 45 :: r => (true, r)
-    | _ => (false, s)
-  let fin (base : Nat) (s : Bytes) : Int :=
-    let n := if base > 36 then atoiLargeBase s base else (parseInt s base 64).1
-    if neg then wrap64 (-n) else n
-  if hasPrefix0x s then fin 16 (s.drop 2)
+/-- The digits in a given base: `strconv.ParseInt` (errors ignored) up to 36, `atoiLargeBase` above. -/
+def atoiDigits (base : Nat) (s : Bytes) : Int :=
+  if base > 36 then atoiLargeBase s base else (parseInt s base 64).1
+
+/-- `atoi` after the sign has been removed: base prefix `0x`/`0X`, leading `0`, `base#`, decimal.
+    (`return 0` for a bad base.) -/
+def atoiMag (s : Bytes) : Int :=
+  if hasPrefix0x s then atoiDigits 16 (s.drop 2)
   else match s with
-    | 48 :: r => fin 8 r
+    | 48 :: r => atoiDigits 8 r
     | _ =>
       match cutHash s with
       | some (baseStr, intStr) =>
         let (b, err) := parseInt baseStr 10 8
-        if err || b < 2 || b > 64 then 0 else fin b.toNat intStr
-      | none => fin 10 s
+        if err || b < 2 || b > 64 then 0 else atoiDigits b.toNat intStr
+      | none => atoiDigits 10 s
+
+/-- `atoi` after `strings.TrimSpace`: one optional sign; `if neg { n = -n }` wraps. -/
+def atoiSigned (s : Bytes) : Int :=
+  match s with
+  | 43 :: r => atoiMag r
+  | 45 :: r => wrap64 (-(atoiMag r))
+  | _ => atoiMag s
+
+/-- `atoi` of expand/arith.go. -/
+def atoi (s0 : Bytes) : Int := atoiSigned (trimSpace s0)
 
 /-! ## strconv.FormatInt(v, 10) -/
 
@@ -286,73 +292,74 @@ def assignOp : BinOp → Option BinOp
 
 def isAssign (op : BinOp) : Bool := op == .assgn || (assignOp op).isSome
 
+/-- Sequencing: continue with the value and the environment of a successful evaluation, stop at
+    the first error (Go: `if err != nil { return 0, err }`). -/
+def andThen (p : Res × Env) (f : Int → Env → Res × Env) : Res × Env :=
+  match p with
+  | (.ok v, env) => f v env
+  | r => r
+
+/-- `cfg.envSet(name, strconv.FormatInt(v, 10))`, then the value. -/
+def setVar (env : Env) (n : Bytes) (v : Int) : Res × Env :=
+  match env.set n (fmtInt v) with
+  | none => (.err .readOnly, env)
+  | some env' => (.ok v, env')
+
+/-- `expr.X.(*syntax.Word).Lit()`: the literal of a word operand; `none` is the failed assertion. -/
+def wordOf : Expr → Option Bytes
+  | .word w => some w
+  | _ => none
+
+mutual
 /-- `Arithm`: result and the environment at the moment evaluation stopped. -/
 def evalArith (env : Env) : Expr → Res × Env
   | .word w => (.ok (atoi (chase env.get (maxNameRefDepth - 1) w)), env)
   | .paren x => evalArith env x
   | .unary op post x =>
     if op = .inc ∨ op = .dec then
-      match x with
-      | .word name =>
+      match wordOf x with
+      | some name =>
         let old := atoi (env.get name)
         let val := if op = .inc then wrap64 (old + 1) else wrap64 (old - 1)
-        match env.set name (fmtInt val) with
-        | none => (.err .readOnly, env)
-        | some env' => (.ok (if post then old else val), env')
-      | _ => (.panic, env)
+        andThen (setVar env name val) fun _ env' => (.ok (if post then old else val), env')
+      | none => (.panic, env)
     else
-      match evalArith env x with
-      | (.ok v, env') =>
+      andThen (evalArith env x) fun v env' =>
         match op with
         | .not => (.ok (oneIf (v == 0)), env')
         | .bitNeg => (.ok (-v - 1), env')
         | .plus => (.ok v, env')
         | .minus => (.ok (wrap64 (-v)), env')
         | _ => (.err .unsupUnary, env')
-      | r => r
   | .binary op x y =>
     if isAssign op then
-      match x with
-      | .word name =>
+      match wordOf x with
+      | some name =>
         let val := atoi (env.get name)
-        match evalArith env y with
-        | (.ok arg, env') =>
-          let r : Res :=
-            match assignOp op with
-            | none => .ok arg
-            | some aop => binArit aop val arg
-          match r with
-          | .ok v =>
-            match env'.set name (fmtInt v) with
-            | none => (.err .readOnly, env')
-            | some env'' => (.ok v, env'')
-          | e => (e, env')
-        | r => r
-      | _ => (.panic, env)
+        andThen (evalArith env y) fun arg env' =>
+          match assignOp op with
+          | none => setVar env' name arg
+          | some aop =>
+            match binArit aop val arg with
+            | .ok v => setVar env' name v
+            | e => (e, env')
+      | none => (.panic, env)
     else if op = .ternQuest then
-      match evalArith env x with
-      | (.ok cond, env') =>
-        match y with
-        | .binary _ b2x b2y => if cond ≠ 0 then evalArith env' b2x else evalArith env' b2y
-        | _ => (.panic, env')
-      | r => r
+      andThen (evalArith env x) fun cond env' => evalTernBranch env' cond y
     else if op = .andL ∨ op = .orL then
-      match evalArith env x with
-      | (.ok left, env') =>
+      andThen (evalArith env x) fun left env' =>
         if op = .andL ∧ left = 0 then (.ok 0, env')
         else if op = .orL ∧ left ≠ 0 then (.ok 1, env')
-        else
-          match evalArith env' y with
-          | (.ok right, env'') => (.ok (oneIf (right != 0)), env'')
-          | r => r
-      | r => r
+        else andThen (evalArith env' y) fun right env'' => (.ok (oneIf (right != 0)), env'')
     else
-      match evalArith env x with
-      | (.ok left, env') =>
-        match evalArith env' y with
-        | (.ok right, env'') => (binArit op left right, env'')
-        | r => r
-      | r => r
+      andThen (evalArith env x) fun left env' =>
+        andThen (evalArith env' y) fun right env'' => (binArit op left right, env'')
+
+/-- `b2 := expr.Y.(*syntax.BinaryArithm)` (whatever its operator) and the choice of the branch. -/
+def evalTernBranch (env : Env) (cond : Int) : Expr → Res × Env
+  | .binary _ b2x b2y => if cond ≠ 0 then evalArith env b2x else evalArith env b2y
+  | _ => (.panic, env)
+end
 
 /-! ## Call sites in interp/runner.go -/
 
@@ -589,8 +596,6 @@ def printArith : Expr → List Tok
   | .paren x => .lparen :: printArith x ++ [.rparen]
   | .unary op post x =>
     if post then printArith x ++ [.sym op.sym] else .sym op.sym :: printArith x
-  | .binary .ternQuest c (.binary .ternColon t f) =>
-    printArith c ++ [.sym .quest] ++ printArith t ++ [.sym .colon] ++ printArith f
   | .binary op x y =>
     match op.sym with
     | some s => printArith x ++ [.sym s] ++ printArith y
@@ -735,12 +740,6 @@ def specBin (op : BinOp) (x y : Int) : Res :=
   | .comma => .ok y
   | _ => .err .syntaxErr
 
-/-- Assignment stores the decimal text of the value. -/
-def specSet (env : Env) (n : Bytes) (v : Int) : Res × Env :=
-  match env.set n (fmtInt v) with
-  | none => (.err .readOnly, env)
-  | some env' => (.ok v, env')
-
 def specEval : Nat → Nat → Env → Expr → Res × Env
   | 0, _, env, _ => (.err .fuel, env)
   | fuel + 1, depth, env, e =>
@@ -762,78 +761,56 @@ def specEval : Nat → Nat → Env → Expr → Res × Env
     | .paren x => specEval fuel depth env x
     | .unary op post x =>
       if op = .inc ∨ op = .dec then
-        match x with
-        | .word n =>
+        match wordOf x with
+        | some n =>
           if validName n then
-            match specEval fuel depth env (.word n) with
-            | (.ok old, env1) =>
+            andThen (specEval fuel depth env (.word n)) fun old env1 =>
               let val := if op = .inc then old + 1 else old - 1
               if inI64 val then
-                match specSet env1 n val with
-                | (.ok _, env2) => (.ok (if post then old else val), env2)
-                | r => r
+                andThen (setVar env1 n val) fun _ env2 => (.ok (if post then old else val), env2)
               else (.err .outOfDomain, env1)
-            | r => r
           else (.err .syntaxErr, env)
-        | _ => (.err .syntaxErr, env)
+        | none => (.err .syntaxErr, env)
       else if post then (.err .syntaxErr, env)
       else
-        match specEval fuel depth env x with
-        | (.ok v, env1) =>
+        andThen (specEval fuel depth env x) fun v env1 =>
           match op with
           | .not => (.ok (oneIf (v == 0)), env1)
           | .bitNeg => (.ok (-v - 1), env1)
           | .plus => (.ok v, env1)
           | _ => (chk (-v), env1)
-        | r => r
     | .binary op x y =>
       if isAssign op then
-        match x with
-        | .word n =>
+        match wordOf x with
+        | some n =>
           if validName n then
             match assignOp op with
             | none =>
               if op = .assgn then
-                match specEval fuel depth env y with
-                | (.ok v, env1) => specSet env1 n v
-                | r => r
+                andThen (specEval fuel depth env y) fun v env1 => setVar env1 n v
               else (.err .syntaxErr, env)
             | some aop =>
-              match specEval fuel depth env (.word n) with
-              | (.ok cur, env1) =>
-                match specEval fuel depth env1 y with
-                | (.ok arg, env2) =>
+              andThen (specEval fuel depth env (.word n)) fun cur env1 =>
+                andThen (specEval fuel depth env1 y) fun arg env2 =>
                   match specBin aop cur arg with
-                  | .ok v => specSet env2 n v
+                  | .ok v => setVar env2 n v
                   | r => (r, env2)
-                | r => r
-              | r => r
           else (.err .syntaxErr, env)
-        | _ => (.err .syntaxErr, env)
+        | none => (.err .syntaxErr, env)
       else if op = .ternQuest then
         match y with
         | .binary .ternColon t f =>
-          match specEval fuel depth env x with
-          | (.ok c, env1) => if c ≠ 0 then specEval fuel depth env1 t else specEval fuel depth env1 f
-          | r => r
+          andThen (specEval fuel depth env x) fun c env1 =>
+            if c ≠ 0 then specEval fuel depth env1 t else specEval fuel depth env1 f
         | _ => (.err .syntaxErr, env)
       else if op = .andL ∨ op = .orL then
-        match specEval fuel depth env x with
-        | (.ok l, env1) =>
+        andThen (specEval fuel depth env x) fun l env1 =>
           if op = .andL ∧ l = 0 then (.ok 0, env1)
           else if op = .orL ∧ l ≠ 0 then (.ok 1, env1)
-          else
-            match specEval fuel depth env1 y with
-            | (.ok r, env2) => (.ok (oneIf (r != 0)), env2)
-            | r => r
-        | r => r
+          else andThen (specEval fuel depth env1 y) fun r env2 => (.ok (oneIf (r != 0)), env2)
       else
-        match specEval fuel depth env x with
-        | (.ok l, env1) =>
-          match specEval fuel depth env1 y with
-          | (.ok r, env2) => (specBin op l r, env2)
-          | r => r
-        | r => r
+        andThen (specEval fuel depth env x) fun l env1 =>
+          andThen (specEval fuel depth env1 y) fun r env2 => (specBin op l r, env2)
 
 /-- bash's nesting limit for expressions reached through variable values. -/
 def bashMaxDepth : Nat := 1024
@@ -877,6 +854,7 @@ def isNameWord : Expr → Bool
   | .word n => validName n
   | _ => false
 
+mutual
 def WF : Expr → Bool
   | .word _ => true
   | .paren x => WF x
@@ -884,12 +862,15 @@ def WF : Expr → Bool
     if op = .inc ∨ op = .dec then isNameWord x else !post && WF x
   | .binary op x y =>
     if op = .assgn ∨ (assignOp op).isSome then isNameWord x && WF y
-    else if op = .ternQuest then
-      match y with
-      | .binary .ternColon t f => WF x && WF t && WF f
-      | _ => false
+    else if op = .ternQuest then WF x && WFColon y
     else if op = .andL ∨ op = .orL then WF x && WF y
     else plainBin op && WF x && WF y
+
+/-- the `t : f` part of a conditional -/
+def WFColon : Expr → Bool
+  | .binary op t f => op == .ternColon && WF t && WF f
+  | _ => false
+end
 
 /-- Every word of the tree is a name or a valid numeric constant. -/
 def LitsOK : Expr → Prop
@@ -928,15 +909,15 @@ def LvalsOK (get : Bytes → Bytes) : Expr → Prop
   | .paren x => LvalsOK get x
   | .unary op _ x =>
     if op = .inc ∨ op = .dec then
-      match x with
-      | .word n => get n = [] ∨ ∃ neg k, IntLit (get n) neg k
-      | _ => True
+      match wordOf x with
+      | some n => get n = [] ∨ ∃ neg k, IntLit (get n) neg k
+      | none => True
     else LvalsOK get x
   | .binary op x y =>
     (if (assignOp op).isSome then
-      match x with
-      | .word n => get n = [] ∨ ∃ neg k, IntLit (get n) neg k
-      | _ => True
+      match wordOf x with
+      | some n => get n = [] ∨ ∃ neg k, IntLit (get n) neg k
+      | none => True
     else LvalsOK get x) ∧ LvalsOK get y
 
 /-- Results on which the specification pronounces (inside the property's domain). -/
